@@ -52,21 +52,30 @@ def main(tier):
     V.build_harness(["asmdrive"])
     rnd = V.rng("C11")
     n = 500 if tier == "quick" else 5000
-    cases, progs = [], {}
+    cases, progs, pfiles = [], {}, {}
     for i in range(1, n + 1):
+        files = {}
         if i % 2:
             g = G.Gen(rnd, rnd.randrange(5, 25), segments=(i % 3 == 0))
             prog = g.program()
         else:
             prog, files = G.Gen7(rnd, depth=3).program()
-            prog = [s for s in prog if s["k"] != "import" and not (s["k"] == "insn" and s["mn"] == "jsr")]
         G.number_statements(prog)
+        for fp in files.values():          # statements of imported files get their own number range (they are listed elsewhere)
+            c = [100000]
+
+            def f(st, scope):
+                c[0] += 1
+                st["n"] = c[0]
+            G.walk(fp, f)
         src = G.render(prog)
         bpl = rnd.randrange(1, 17)
         move = rnd.random() < 0.5
-        cases.append({"id": i, "files": {"main.asm": src}, "pc": 0x2000, "want": ["segments", "symbols", "vice", "srcmap", "listing"],
+        fsrc = {fn: G.render(fp) for fn, fp in files.items()}
+        cases.append({"id": i, "files": dict(fsrc, **{"main.asm": src}), "pc": 0x2000, "want": ["segments", "symbols", "vice", "srcmap", "listing"],
                       "bytes_per_line": bpl, "move_macro": move, "max_passes": 60})
         progs[i] = (prog, src, bpl, move)
+        pfiles[i] = (files, fsrc)
     obs, p = V.run_harness("asmdrive", cases, "C11-drive")
     if len(obs) != len(cases):
         raise V.ToolError("asmdrive produced %d of %d observations: %s" % (len(obs), len(cases), p.stderr[-2000:]))
@@ -82,12 +91,18 @@ def main(tier):
         if not G.assign_anon_scopes(prog, [s["path"] for s in syms]):
             continue
         nok += 1
-        rec = {"id": o["id"], "prog": G.tla_ready(prog), "files": {"_": []}, "pc0": 0x2000, "ok": True,
+        files, fsrc = pfiles[o["id"]]
+        lmap = line_map(prog)
+        for fp in files.values():
+            def g0(st, scope):
+                lmap[str(st["n"])] = 0
+            G.walk(fp, g0)
+        rec = {"id": o["id"], "prog": G.tla_ready(prog), "files": dict({fn: G.tla_ready(fp) for fn, fp in files.items()}, **{"_": []}), "pc0": 0x2000, "ok": True,
                "syms": [{"path": s["path"], "ty": s["ty"], "kind": s["kind"], "val": s["val"]} for s in syms],
                "segs": [{"name": s["name"], "start": s["start"], "end": s["end"], "pc": s["pc"], "bytes": s["bytes"]} for s in o["segments"]],
                "vice": parse_vice(o.get("vice")), "hasVice": o.get("vice") is not None,
                "bpl": bpl, "move": move, "nlines": len(src.split("\n")),
-               "lineOf": line_map(prog),
+               "lineOf": lmap,
                "hasSrcmap": True,
                "srcmap": [{"line": e["line"], "lo": e["lo"], "hi": e["hi"]} for e in o["srcmap"] if e["file"] == "main.asm"],
                "rows": parse_listing(o["listing"].get("main.asm", ""), bpl)}
@@ -103,6 +118,8 @@ def main(tier):
         os.makedirs(d)
         open(os.path.join(d, "mos.toml"), "w").write('[build]\nentry = "main.asm"\nlisting = true\n[formatting.listing]\nnum-bytes-per-line = %d\n' % bpl)
         open(os.path.join(d, "main.asm"), "w").write(src)
+        for fn, t in pfiles[rec["id"]][1].items():
+            open(os.path.join(d, fn), "w").write(t)
         p = subprocess.run([mos, "--no-color", "-e", "Short", "build"], cwd=d, capture_output=True, timeout=60)
         lst = os.path.join(d, "target", "main.lst")
         if p.returncode != 0 or not os.path.exists(lst):
@@ -116,6 +133,7 @@ def main(tier):
             o2["hasSrcmap"] = False
         recs.append(o2)
         progs[o2["id"]] = progs[rec["id"]]
+        pfiles[o2["id"]] = pfiles[rec["id"]]
         omap[o2["id"]] = {"listing": {"main.asm": open(lst).read()}, "srcmap": None}
         nproc += 1
     shutil.rmtree(root, ignore_errors=True)
